@@ -29,7 +29,10 @@ CALLS = [dict(f='token'), dict(f='expression', strict=True), dict(f='expression'
          dict(f='optarg'), dict(f='nodes', stopkind='none', stoparg=''), dict(f='nodes', stopkind='brace', stoparg='}'),
          dict(f='nodes', stopkind='brace', stoparg=']'), dict(f='nodes', stopkind='brace', stoparg=')'),
          dict(f='nodes', stopkind='env', stoparg='e'), dict(f='nodes', stopkind='math', stoparg='$'),
-         dict(f='nodes', stopkind='math', stoparg='\\)')]
+         dict(f='nodes', stopkind='math', stoparg='\\)'),
+         # the documented 2-tuple spelling (opening, closing) of stop_upon_closing_brace: same meaning
+         dict(f='nodes', stopkind='brace', stoparg='}', tuple=True), dict(f='nodes', stopkind='brace', stoparg=']', tuple=True),
+         dict(f='nodes', stopkind='brace', stoparg=')', tuple=True)]
 
 MC = """---- MODULE MC_LegacyApi ----
 EXTENDS LegacyApi
@@ -101,7 +104,8 @@ def legacy_call(s, p, c, tol):
         if c['f'] == 'nodes':
             kw = {}
             if c['stopkind'] == 'brace':
-                kw['stop_upon_closing_brace'] = c['stoparg']
+                kw['stop_upon_closing_brace'] = (({'}': '{', ']': '[', ')': '('}[c['stoparg']], c['stoparg']) if c.get('tuple')
+                                                 else c['stoparg'])
             elif c['stopkind'] == 'env':
                 kw['stop_upon_end_environment'] = c['stoparg']
             elif c['stopkind'] == 'math':
